@@ -468,7 +468,11 @@ where
     let res_log_delta = a.log_delta().min(b.log_delta());
 
     let res_offset = (res_log_budget + res_log_delta).saturating_sub(res.max_k().as_usize());
-    let cnv_offset = a.effective_k().max(b.effective_k()) + res_offset;
+    // The product of the two torus values carries log_budget(a) + log_budget(b) bits of headroom and
+    // the result announces min(log_budget) - max(log_delta) - res_offset: the difference is
+    // max(log_budget) + max(log_delta) + res_offset (equal to max(effective_k) + res_offset only
+    // when the same operand has both the larger log_budget and the larger log_delta).
+    let cnv_offset = a.log_budget().max(b.log_budget()) + a.log_delta().max(b.log_delta()) + res_offset;
 
     Ok((
         checked_log_budget_sub("mul", res_log_budget, res_offset)?,
